@@ -215,10 +215,10 @@ def gen_impl(r, structs, used_pairs):
     for k, v in gen_kv(r, 0, 3):
         items.append(("field", k, v))
     signames = set()
-    for _ in range(r.randint(0, 2)):
+    for _ in range(r.randint(0, 3)):
         sn = r.choice(st["fields"])["name"]
-        if sn in signames:
-            continue
+        if sn in signames and r.random() < 0.6:
+            continue  # (otherwise: a second signal block for the same field - two blocks, both part of the schema)
         signames.add(sn)
         items.append(("signal", sn, gen_kv(r, 1, 3)))
     if not items:
